@@ -112,11 +112,13 @@ Section Proofs.
   (** ** Load with a selection *)
 
   (** A well-formed selection entry for an axis of extent n: nil, or
-      [start, stop, step(, ...)] with start >= 0, step >= 1. *)
-  Definition dimsel_wf (d : dimsel) : Prop :=
+      [start, stop, step(, ...)] of Go ints with start >= 0, step >= 1 and
+      n + step <= 2^63 (no overflow in sliceSize); stop is any int >= MinInt64 + n,
+      MaxInt64 included ([ss_ok]). *)
+  Definition dimsel_wf (n : Z) (d : dimsel) : Prop :=
     match d with
     | None => True
-    | Some (a :: b :: s :: _) => u64 a /\ u64 s /\ 1 <= s
+    | Some (a :: b :: s :: _) => ss_ok a b s n
     | Some _ => False
     end.
 
@@ -129,7 +131,7 @@ Section Proofs.
   Qed.
 
   Lemma slice_triples_valid : forall sl dims,
-    Forall2 (fun n d => dimsel_wf d) dims sl -> Forall u64 dims ->
+    Forall2 dimsel_wf dims sl -> Forall u64 dims ->
     tr_valid dims (slice_triples sl dims) /\ length (slice_triples sl dims) = length dims.
   Proof.
     intros sl dims F. revert F. revert sl. induction dims as [|n dims IH]; intros sl F U.
@@ -140,7 +142,7 @@ Section Proofs.
       constructor; [|exact TV].
       unfold u64 in *.
       destruct y as [[|a [|b [|s r]]]|]; simpl in Hy; try contradiction; simpl.
-      + destruct Hy as [Ua [Us S1]]. unfold u64 in *.
+      + destruct Hy as [Ua [S1 [Hn0 [Hns Hb]]]]. unfold u64 in *.
         pose proof (slice_count_nonneg a b s n S1).
         repeat split; try lia.
         destruct (Z.eq_dec (slice_count a b s n) 0) as [E|N]; [left; exact E|right].
@@ -153,7 +155,7 @@ Section Proofs.
   Definition tr_steps (tr : list (Z * Z * Z)) := map (fun t => snd t) tr.
 
   Lemma make_hyperslab_triples : forall sl dims,
-    Forall2 (fun n d => dimsel_wf d) dims sl -> Forall u64 dims ->
+    Forall2 dimsel_wf dims sl -> Forall u64 dims ->
     let tr := slice_triples sl dims in
     make_hyperslab sl dims =
       Some {| hs_offset := tr_offsets tr; hs_stride := tr_steps tr; hs_count := tr_counts tr;
@@ -168,9 +170,9 @@ Section Proofs.
       - inversion F as [|n' y dims' sl' Hy Hrest]; subst. inversion U as [|x l Un Ul]; subst.
         destruct (IH Ul _ Hrest) as [IH1 IH2]. simpl. rewrite IH1, IH2.
         destruct y as [[|a [|b [|s r]]]|]; simpl in Hy; try contradiction.
-        + destruct Hy as [Ua [Us S1]]. unfold u64 in *.
+        + pose proof Hy as [Ua [S1 [Hn0 [Hns Hb]]]]. unfold u64 in *.
           assert (SS : slice_size (a :: b :: s :: r) n = Some (slice_count a b s n)).
-          { pose proof (slice_size_spec a b s n) as Q. unfold slice_size in *. apply Q; lia. }
+          { pose proof (slice_size_spec a b s n Hy) as Q. unfold slice_size in *. exact Q. }
           rewrite SS. simpl.
           pose proof (slice_count_nonneg a b s n S1). pose proof (slice_count_le a b s n).
           rewrite !go_uint_id by (unfold u64; lia). auto.
@@ -269,7 +271,7 @@ Section Proofs.
       elements = those at start + k*step, row-major. *)
   Theorem load_subset_eq_memory_slice : forall st s p d sl,
     h5_open_dataset st [] s = Some (p, d) -> ds_wf d ->
-    Forall2 (fun n ds => dimsel_wf ds) (ds_dims d) sl ->
+    Forall2 dimsel_wf (ds_dims d) sl ->
     has_selection (Some sl) = true ->
     io_load cd (Some st) {| h_dataset := s; h_slice := Some sl |}
     = IoRet (Some (mem_slice vzero (ds_view d) (slice_triples sl (ds_dims d)))) false.
